@@ -34,8 +34,10 @@ TOL_N = 1e-12  # one multiplication per step
 TOL_GEOM = 1e-9  # real mass ratio vs the ratio the block-model geometry dictates (classification of class (b) only)
 FACTORS = {"u11": 1.1, "d11": 1.0 / 1.1, "u9": 1.0 / 0.9, "d9": 0.9, "one": 1.0}
 INVERSE = {"u11": "d11", "d11": "u11", "u9": "d9", "d9": "u9", "one": "one"}
-UNIFORM = {"U350": 350.0, "U450": 450.0, "U550": 550.0}
-RAMP = (350.0, 550.0)  # linear, bottom -> top of the assembly
+# uniform fields; 0.0 C exactly (a falsy reference temperature) and a negative temperature are boundary values
+UNIFORM = {"U350": 350.0, "U450": 450.0, "U550": 550.0, "U0": 0.0, "Um50": -50.0}
+# linear ramps, bottom -> top of the assembly; two of them start / end at exactly 0.0 C
+RAMPS = {"ramp": (350.0, 550.0), "ramp0up": (0.0, 200.0), "ramp0dn": (200.0, 0.0)}
 MAX_STORED_PER_KEY = 40
 
 # violation classes that are the structural case (b) above: the search continues through them
@@ -55,7 +57,7 @@ def _rel(a, b, tol):
 
 
 def _init(stack, heights, alpha="full", **kw):
-    d = {"stack": stack, "heights": [float(h) for h in heights], "fuel_mat": "UZr", "clad_mat": "HT9", "bond": False, "tight": False, "targets": {}, "thot": "varied", "reuse": False, "alpha": alpha}
+    d = {"stack": stack, "heights": [float(h) for h in heights], "fuel_mat": "UZr", "clad_mat": "HT9", "bond": False, "tight": False, "multi": False, "shield_mult": None, "targets": {}, "thot": "varied", "reuse": False, "alpha": alpha}
     d.update(kw)
     return d
 
@@ -78,6 +80,8 @@ def base_inits():
             out.append(_init(stack, hs, targets={"3": "duct"}))
             out.append(_init(stack, hs, targets={"1": "clad"}, fuel_mat="UraniumOxide", clad_mat="Inconel625", bond=True))
         else:
+            out.append(_init(stack, hs, multi=True))  # fuel pin overlaps shield pin AND clad below: two candidates
+            out.append(_init(stack, hs, shield_mult=19.0))  # pins of other multiplicity below: fuel block unlinked
             out.append(_init(stack, [10, 25, 10], targets={"0": "clad"}, thot="flat"))
             out.append(_init(stack, hs, targets={"1": "clad"}, fuel_mat="UraniumOxide", clad_mat="Inconel625", bond=True))
     return out
@@ -93,11 +97,14 @@ def alphabet(init):
     if init["alpha"] == "full":
         sets = ["fuel", "clad"] + ["blk%d" % i for i in nd] + ["solids", "opp"]
         facs = ["u11", "d11", "u9", "d9", "one"]
-        therm = [["therm", "U550", 20], ["therm", "U350", 20], ["therm", "U450", 20], ["therm", "ramp", 20], ["therm", "ramp", 50], ["therm", "U550", 2]]
+        therm = [["therm", "U550", 20], ["therm", "U350", 20], ["therm", "U450", 20], ["therm", "U0", 20], ["therm", "Um50", 20]]
+        therm += [["therm", "ramp", 20], ["therm", "ramp", 50], ["therm", "ramp0up", 20], ["therm", "ramp0dn", 20], ["therm", "U550", 2]]
     else:
-        sets = ["fuel", "clad", "solids"]
+        # growth of the bottom block alone and of every solid (upper unlinked blocks must follow), fuel, clad;
+        # heating, cooling to exactly 0.0 C, a ramp
+        sets = ["fuel", "clad", "blk0", "solids"]
         facs = ["u11", "d11"]
-        therm = [["therm", "U550", 20], ["therm", "U350", 20], ["therm", "ramp", 20]]
+        therm = [["therm", "U550", 20], ["therm", "U0", 20], ["therm", "ramp", 20]]
     return [["presc", s, f] for f in facs for s in sets] + therm
 
 
@@ -116,8 +123,9 @@ def set_factors(init, sname, fname):
 
 def field(fname, npts, htot):
     grid = [htot * k / (npts - 1) for k in range(npts)]
-    if fname == "ramp":
-        vals = [RAMP[0] + (RAMP[1] - RAMP[0]) * z / htot for z in grid]
+    if fname in RAMPS:
+        lo, hi = RAMPS[fname]
+        vals = [lo + (hi - lo) * z / htot for z in grid]
     else:
         vals = [UNIFORM[fname]] * npts
     return grid, vals
@@ -157,8 +165,13 @@ class Model:
                     for n2, s2, m2, lo2, hi2 in self.sol[i - 1]:
                         if s2 == shape and m2 == mult and max(lo, lo2) < min(hi, hi2):
                             below.append(n2)
-                if len(below) > 1:
-                    self.multi = (i, name, below)
+                above = []
+                if i + 1 < self.n:
+                    for n2, s2, m2, lo2, hi2 in self.sol[i + 1]:
+                        if s2 == shape and m2 == mult and max(lo, lo2) < min(hi, hi2):
+                            above.append(n2)
+                if len(below) > 1 or len(above) > 1:
+                    self.multi = (i, name, below, above)  # more than one candidate: linkage must be refused
                 self.link[(i, name)] = below[0] if below else None
         self.cz = {}  # (i, name) -> (zbottom, ztop) after the last step
         # expected mass of every solid relative to its initial mass, as the block model dictates:
@@ -306,6 +319,8 @@ def apply_op(a, init, op, changer):
             changer.performThermalAxialExpansion(a, np.array(grid), np.array(vals))
     except (ArithmeticError, ValueError) as e:
         return "refused:" + type(e).__name__
+    except RuntimeError as e:  # the documented refusal of ambiguous linkage (expected only where the model says so)
+        return "refused:RuntimeError" if "Multiple component axial linkages" in str(e) else "error:RuntimeError:%s" % str(e)[:120]
     except Exception as e:  # noqa: BLE001 - anything else is reported, never swallowed
         return "error:%s:%s" % (type(e).__name__, str(e)[:120])
     return "ok"
@@ -572,6 +587,8 @@ def expand(item):
                     break
             temps_changed = any(c1["T"] != c0["T"] for b1, b0 in zip(now["blocks"], obs[-1]["blocks"]) for c1, c0 in zip(b1["comps"], b0["comps"]))
             return {"canon": ["refused", hist], "full": None, "viols": viols, "ops": [], "out": out, "terminal": True, "partial_T": temps_changed}
+        if out == "refused:RuntimeError" and observe(a, init) != obs[-1]:
+            viols.append(core.viol("c12/refusal-changed-state", "%s after %s: ambiguous linkage refused with RuntimeError but the assembly changed" % (_short(init), [_opname(o) for o in hist]), case))
         return {"canon": ["refused", hist], "full": None, "viols": viols, "ops": [], "out": out, "terminal": True}
     viols += check_invariants(init, m, obs[-1], obs[0], case, len(hist))
     j = None
@@ -651,15 +668,16 @@ def plan(ctx):
         return [dict(i, alpha=alpha) for i in inits]
 
     # SFD base, SFD fuel->clad target, GFFPD base (also with one reused changer), GFFPD upper fuel->duct target
-    core4 = [base[0], base[4], dict(base[11], reuse=True), base[16]]
+    g0 = [i for i, b in enumerate(base) if b["stack"] == "GFFPD"][0]  # GFFPD base; g0+5: upper fuel block -> duct target
+    core4 = [base[0], base[4], dict(base[g0], reuse=True), base[g0 + 5]]
     if ctx.quick:
-        rest = [b for i, b in enumerate(base) if i not in (0, 4, 11, 16)]
+        rest = [b for i, b in enumerate(base) if i not in (0, 4, g0, g0 + 5)]
         return [
             ("all inits x full alphabet, depth 1", with_alpha(base, "full"), 1),
             ("4 inits x reduced alphabet, depth 3", with_alpha(core4, "reduced"), 3),
             ("other inits x reduced alphabet, depth 2", with_alpha(rest, "reduced"), 2),
             ("SFD base x full alphabet, depth 2, twin with one reused changer", with_alpha([dict(base[0], reuse=True)], "full"), 2),
-            ("GFFPD base x full alphabet, depth 2", with_alpha([base[11]], "full"), 2),
+            ("GFFPD base x full alphabet, depth 2", with_alpha([base[g0]], "full"), 2),
         ]
     return [
         ("all inits x full alphabet, depth 2", with_alpha([dict(b, reuse=(i % 2 == 0)) for i, b in enumerate(base)], "full"), 2),
